@@ -12,10 +12,11 @@ VARIABLE l
 Trace == ndJsonDeserialize(TraceFile)
 
 Install(st) ==
-  /\ reg' = st.reg /\ online' = st.online /\ approved' = st.approved /\ totalPower' = st.totalPower
+  /\ reg' = st.reg /\ online' = st.online /\ approved' = st.approved /\ power' = st.power /\ totalPower' = st.totalPower
   /\ sets' = st.sets /\ latest' = st.latest /\ slashedSet' = st.slashedSet /\ lastObsSet' = st.lastObsSet
   /\ batches' = st.batches /\ slashedBatch' = st.slashedBatch /\ calls' = st.calls /\ slashedCall' = st.slashedCall
   /\ props' = st.props
+  /\ UNCHANGED adds
 
 PInit == Init /\ l = 1
 PNext == /\ l <= Len(Trace) /\ l' = l + 1
@@ -26,6 +27,7 @@ R(A) == op'.name = "Reset" \/ A
 P_C07_TickNeverFails      == [][R(A_C07_TickNeverFails)]_<<vars, l>>
 P_C07_OfflineExactly      == [][R(A_C07_OfflineExactly)]_<<vars, l>>
 P_C07_OnlineChangedOnlyBy == [][R(A_C07_OnlineChangedOnlyBy)]_<<vars, l>>
+P_C07_PowerChangedOnlyBy  == [][R(A_C07_PowerChangedOnlyBy)]_<<vars, l>>
 P_C07_Cursors             == [][R(A_C07_Cursors)]_<<vars, l>>
 P_C07_PowerRefreshed      == [][R(A_C07_PowerRefreshed)]_<<vars, l>>
 P_C07_SetRequest          == [][R(A_C07_SetRequest)]_<<vars, l>>
